@@ -249,6 +249,13 @@ def build_score(rng, parts, kinds, durs):
             if rng.random() < 0.2 and len(parts) > 1 and (sc or p != parts[-1]):
                 continue
             k = [x for x in kinds if x not in gen.REL] if p.startswith('drum') else kinds
+            same_ins = [q for q in sc if q.split('__')[0] == p.split('__')[0]]
+            if same_ins and rng.random() < 0.3:
+                # a unison doubling inside one instrument: the two parts share a track and a channel and every note is
+                # written twice, once per sounding note (seed C07-9 dropped the duplicate rows)
+                from musiclang import Melody
+                sc[p] = Melody([n.copy() for n in sc[rng.choice(same_ins)].notes])
+                continue
             sc[p] = gen.rand_melody(rng, kinds=k, p_rest=0.15, p_cont=0.2, vals=(0, 8), octs=(-1, 1), p_amp=0.4, durs=durs)
         chords.append(c(**sc))
     score = Score(chords)
